@@ -52,6 +52,10 @@ def display(item):
         return 'nop'
     if k in ('mute', 'unmute'):
         return '#' + k
+    if k == 'if':
+        return f'#if {item[1]}'
+    if k in ('else', 'endif'):
+        return '#' + k
     raise ValueError(item)
 
 
@@ -75,6 +79,8 @@ class Resolver:
         self.counter += 1
         return f'u{self.counter}_{base}'
 
+    conditional = False
+
     def _define(self, kind, key, name):
         table = self.defs[kind].setdefault(key, {})
         if name in table:
@@ -88,8 +94,23 @@ class Resolver:
         self.out[fname] = stmts
         region = None           # id of the enclosing non-local label, None after an origin / zone directive
         nreg = 0
+        cond = []               # open conditional blocks of this file: [selected?]
         for idx, it in enumerate(self.files[fname]):
             k = it[0]
+            if k in ('if', 'else', 'endif'):
+                # conditions are the constants 0 / 1 here: lines of an unselected branch define and reference nothing
+                if k == 'if':
+                    cond.append(bool(it[1]))
+                elif k == 'else':
+                    cond[-1] = not cond[-1]
+                else:
+                    cond.pop()
+                stmts.append(None)
+                self.conditional = True
+                continue
+            if not all(cond):
+                stmts.append(None)
+                continue
             if k in ('g', 'f', 'gc', 'fc') and it[1] in self.registers:
                 self.reject = self.reject or 'register name used as label'
             if k == 'g':
@@ -155,6 +176,7 @@ class ScopeShape(LayoutShape):
         params['files'] = src
         params['prog'] = {f: [s if s is not None else ('instr', 'nop', None) for s in st] for f, st in res.out.items()}
         params['must_reject'] = res.reject
+        params['acceptance_only'] = res.conditional
         params.setdefault('props', ['C06'])
         params.setdefault('binary', False)
         params.setdefault('width', 32)
@@ -173,6 +195,9 @@ class ScopeShape(LayoutShape):
         if self.params['must_reject']:
             return [('C06.' + self.params['must_reject'].split(' of ')[0].replace(' ', '_') + '_is_rejected',
                      z3.BoolVal(out.kind != 'ok'))]
+        if self.params.get('acceptance_only'):
+            # arrangements with conditional blocks: only acceptance is judged (the layout reference is not built)
+            return [('C06.program_with_only_visible_references_is_assembled', z3.BoolVal(out.kind == 'ok'))]
         ref = self.ref(env)
         if out.kind != 'ok':
             return [('C06.program_with_only_visible_references_is_assembled',
@@ -226,6 +251,15 @@ def catalogue():
     C['rej:file-label-from-included'] = {'main.asm': [F('t'), NOP, ('include', 'inc.asm')], 'inc.asm': [R('_t')]}
     C['rej:file-constant-from-other-file'] = {'main.asm': [FC('k', 'v1'), ('include', 'inc.asm')], 'inc.asm': [R('_k')]}
     C['rej:local-from-included-file'] = {'main.asm': [G('a'), Lc('x'), ('include', 'inc.asm')], 'inc.asm': [R('.x')]}
+    # labels, origins and references in an unselected branch do not exist: they open or close no region, define nothing
+    IF0, IF1, ELSE, ENDIF = ('if', 0), ('if', 1), ('else',), ('endif',)
+    C['dead-label-does-not-split-a-region'] = {'main.asm': [G('a'), Lc('x'), IF0, G('dead'), NOP, ENDIF, R('.x'), NOP]}
+    C['dead-file-label-and-origin-do-not-split-a-region'] = {'main.asm': [G('a'), Lc('x'), IF1, NOP, ELSE, F('dead'), ('org', 0x40), ENDIF,
+                                                                          R('.x'), NOP]}
+    C['live-label-in-selected-branch-opens-a-region'] = {'main.asm': [G('a'), Lc('x'), IF1, G('b'), Lc('x'), ENDIF, R('.x'), NOP]}
+    C['rej:duplicate-local-around-a-dead-label'] = {'main.asm': [G('a'), Lc('x'), IF0, G('dead'), ENDIF, Lc('x'), NOP]}
+    C['rej:reference-to-a-label-defined-in-a-dead-branch'] = {'main.asm': [G('a'), IF0, G('dead'), ENDIF, R('dead'), NOP]}
+    C['rej:local-after-live-label-in-else-branch'] = {'main.asm': [G('a'), Lc('x'), IF0, NOP, ELSE, G('b'), ENDIF, R('.x'), NOP]}
     # references on muted lines are resolved (and rejected) like any other
     MU, UN = ('mute',), ('unmute',)
     C['muted-region-resolves-like-any-other'] = {'main.asm': [F('t'), NOP, G('a'), Lc('x'), MU, R('.x'), R('a'), R('_t'), UN, R('.x'), R('_t')]}
